@@ -146,3 +146,29 @@ def split_args(k):
     if cur.strip():
         out.append(cur.strip())
     return out
+
+
+def resolve_path_locals(f, text, tr, depth=0):
+    """replace `var:name` (a local assigned on several branches) in a canonical text by the value it is given on the path `tr` (list of
+    block ids): the one assignment among the visited blocks.  Left untouched when the path assigns it more than once or not at all."""
+    import re as _re
+    from engine.preds import canon as _canon
+    if depth > 3:
+        return text
+    out = text
+    for mm in set(_re.findall(r'var:(\w+)', text)):
+        ls = [i for i, l in enumerate(f.locals) if l['n'] == mm or '_%d' % i == mm]
+        got = []
+        for bi, si, st in f.assignments():
+            if bi in tr and not st['p']['p'] and st['p']['l'] in ls:
+                got.append(_canon(f.sym_rvalue(st['rv'])))
+        c = f.call_at
+        for b in tr:
+            cc = c.get(b)
+            if cc is not None and not cc.dest['p'] and cc.dest['l'] in ls:
+                got.append(_canon(('call', cc.callee.name, tuple(f.sym_operand(a) for a in cc.args), cc.bb)))
+        if len(got) == 1 and ('var:' + mm) not in got[0]:
+            out = _re.sub(r'var:%s\b' % _re.escape(mm), got[0].replace('\\', '\\\\'), out)
+    if out != text and 'var:' in out:
+        return resolve_path_locals(f, out, tr, depth + 1)
+    return out
